@@ -96,7 +96,7 @@ BlockDev(T, dv) ==
       [] dv = "hsz-4" -> [T EXCEPT !.hsz = T.hsz - 4]
       [] dv = "resv" -> [T EXCEPT !.resv = TRUE]
       [] dv = "nofit" -> [T EXCEPT !.fits = FALSE]
-      [] dv = "cs_zero" -> [T EXCEPT !.cs.v = 0]
+      [] dv = "cs_zero" -> Refit([T EXCEPT !.cs.v = 0, !.cs.big = ""])
       [] dv = "cs+1" -> [T EXCEPT !.cs.v = T.cs.v + 1]
       [] dv = "cs-1" -> [T EXCEPT !.cs.v = T.cs.v - 1]
       [] dv = "cs_vli" -> Refit([T EXCEPT !.cs.vli = FALSE, !.cs.vc = "nonmin"])        \* the TRUE value, encoded one byte longer
@@ -147,7 +147,7 @@ StreamDev(T, dv) ==
       [] dv = "irec_u+1" -> [T EXCEPT !.irecs[1].u = T.irecs[1].u + 1]
       [] dv = "irec_u+4" -> [T EXCEPT !.irecs[1].u = T.irecs[1].u + 4]
       [] dv = "irec_n+1" -> [T EXCEPT !.irecs[Len(T.irecs)].n = T.irecs[Len(T.irecs)].n + 1]
-      [] dv = "irec_u_small" -> [T EXCEPT !.irecs[1].u = 4]
+      [] dv = "irec_u_small" -> [T EXCEPT !.irecs[1].u = 4, !.irecs[1].ub = ""]
       [] dv = "irec_swap" -> [T EXCEPT !.irecs[1] = T.irecs[2], !.irecs[2] = T.irecs[1]]
       [] dv = "irec_cancel" -> [T EXCEPT !.irecs[1].u = T.irecs[1].u + 4, !.irecs[2].u = T.irecs[2].u - 4,
                                          !.irecs[1].n = T.irecs[1].n + 1, !.irecs[2].n = T.irecs[2].n - 1]
